@@ -173,6 +173,9 @@ func runLabelSteps(sc *drv.Scenario, w *drv.World, x *LabelExec, after func(i in
 			v.Step = i
 			return v, nil
 		}
+		if x.EndRun {
+			return nil, nil
+		}
 		if after != nil {
 			if v, err := after(i, op); v != nil || err != nil {
 				if v != nil {
